@@ -55,6 +55,9 @@ def main():
                 results[sid] = "caught" if any(o[1] == 1 and o[2] > 0 for o in outcomes) else "MISSED"
             finally:
                 subprocess.run(["git", "-C", repo, "checkout", "--", "."], check=True)
+                if not inplace:
+                    # files the patch created (the scratch worktree only; /repo is never cleaned)
+                    subprocess.run(["git", "-C", repo, "clean", "-fdq", "rust", "proto", "python"], check=False)
     finally:
         if not inplace:
             sh("git", "-C", "/repo", "worktree", "remove", "--force", WT)
